@@ -1,9 +1,14 @@
 package main
 
+import "math/big"
+
 
 func c16More(c *Ctx, r *Report, p *Prog, f *Folder, P, N interface{}) {
 	// (b) canonical decode: inventories of both SetBytes (bound folded to p-1 resp. n-1) and of the point decoder
 	c03Decoders(r, p, f)
+	// (g) range and algebra of the generated Montgomery primitives
+	c16NoWrap(r, p)
+	c16Algebra(r, p, P.(*big.Int), N.(*big.Int))
 }
 
 func c15More(c *Ctx, r *Report, p *Prog, f *Folder) {
